@@ -41,7 +41,9 @@ Record call := mkcall {
   k_ow : bool (* one-way call *); k_start : N; k_dl : N; k_pc : pc; k_t0 : N (* begin of the current wait *);
   k_lockt : N (* ghost: when connLock was acquired *); k_d : bool (* ghost: this call dialled *);
   k_e : bool (* ghost: time passed while waiting to enqueue *);
-  k_out : option outcome; k_ret : N }.
+  k_out : option outcome; k_ret : N;
+  k_rel0 : N (* ghost: how many times connLock had been released by a dialling call when this call began to wait for it *);
+  k_w : N (* ghost: how many dials of other calls ended while this call waited for connLock *) }.
 
 (* a reply receiver goroutine: go protocol.Recv(pkg) *)
 Inductive rpc := RNew | RFound (j : nat) (* holds the channel of call j, blocked in the send/timer select *) | RDone.
@@ -49,7 +51,8 @@ Record rcv := mkrcv { r_id : N; r_pay : N; r_pc : rpc; r_t0 : N }.
 
 (* bookkeeping of transport.connection: idleTime, invokeNum (writes minus packets received; it is never reset), and
    two ghosts: when the current connection was established (phase of the sender's one-second ticker), how many were *)
-Record transp := mktr { idle_since : N; tinv : Z; conn_t : N; conns : N }.
+Record transp := mktr { idle_since : N; tinv : Z; conn_t : N; conns : N;
+  rels : N (* ghost: how often connLock has been released by a call that had dialled *) }.
 
 Record state := mkst {
   now : N; calls : list call; rcvs : list rcv;
@@ -58,7 +61,7 @@ Record state := mkst {
   sent : list (N * N) (* ghost: packets the peer emitted *);
   tr : transp }.
 
-Definition init : state := mkst 0 [] [] 0%Z 0%Z [] false None [] [] [] (mktr 0 0%Z 0 0).
+Definition init : state := mkst 0 [] [] 0%Z 0%Z [] false None [] [] [] (mktr 0 0%Z 0 0 0).
 
 (* the request id of call i is i+1 (ids of outstanding calls are distinct and non-zero: C08) *)
 Definition id_of (i : nat) : N := N.of_nat (S i).
@@ -86,21 +89,23 @@ Definition memb (i : nat) (l : list nat) : bool := existsb (Nat.eqb i) l.
 Definition remove_nat (i : nat) (l : list nat) : list nat := filter (fun j => negb (Nat.eqb i j)) l.
 
 Definition set_pc (k : call) (p : pc) : call :=
-  mkcall (k_ow k) (k_start k) (k_dl k) p (k_t0 k) (k_lockt k) (k_d k) (k_e k) (k_out k) (k_ret k).
+  mkcall (k_ow k) (k_start k) (k_dl k) p (k_t0 k) (k_lockt k) (k_d k) (k_e k) (k_out k) (k_ret k) (k_rel0 k) (k_w k).
 Definition set_wait (k : call) (p : pc) (t : N) : call :=
-  mkcall (k_ow k) (k_start k) (k_dl k) p t (k_lockt k) (k_d k) (k_e k) (k_out k) (k_ret k).
-Definition set_lock (k : call) (p : pc) (t : N) (d : bool) : call :=
-  mkcall (k_ow k) (k_start k) (k_dl k) p t t d (k_e k) (k_out k) (k_ret k).
+  mkcall (k_ow k) (k_start k) (k_dl k) p t (k_lockt k) (k_d k) (k_e k) (k_out k) (k_ret k) (k_rel0 k) (k_w k).
+Definition set_lock (k : call) (p : pc) (t : N) (d : bool) (w : N) : call :=
+  mkcall (k_ow k) (k_start k) (k_dl k) p t t d (k_e k) (k_out k) (k_ret k) (k_rel0 k) w.
+Definition set_reg (k : call) (r : N) : call :=
+  mkcall (k_ow k) (k_start k) (k_dl k) Reg (k_t0 k) (k_lockt k) (k_d k) (k_e k) (k_out k) (k_ret k) r (k_w k).
 Definition set_out (k : call) (o : outcome) (e : bool) : call :=
-  mkcall (k_ow k) (k_start k) (k_dl k) Done (k_t0 k) (k_lockt k) (k_d k) e (Some o) (k_ret k).
+  mkcall (k_ow k) (k_start k) (k_dl k) Done (k_t0 k) (k_lockt k) (k_d k) e (Some o) (k_ret k) (k_rel0 k) (k_w k).
 Definition set_full (k : call) : call :=
-  mkcall (k_ow k) (k_start k) (k_dl k) Cleaned (k_t0 k) (k_lockt k) (k_d k) (k_e k) (Some Error) (k_ret k).
+  mkcall (k_ow k) (k_start k) (k_dl k) Cleaned (k_t0 k) (k_lockt k) (k_d k) (k_e k) (Some Error) (k_ret k) (k_rel0 k) (k_w k).
 Definition set_enq (k : call) (e : bool) : call :=
   if k_ow k
-  then mkcall (k_ow k) (k_start k) (k_dl k) Done (k_t0 k) (k_lockt k) (k_d k) e (Some Sent) (k_ret k)   (* one-way: returns at once *)
-  else mkcall (k_ow k) (k_start k) (k_dl k) Waiting (k_t0 k) (k_lockt k) (k_d k) e (k_out k) (k_ret k).
+  then mkcall (k_ow k) (k_start k) (k_dl k) Done (k_t0 k) (k_lockt k) (k_d k) e (Some Sent) (k_ret k) (k_rel0 k) (k_w k)   (* one-way: returns at once *)
+  else mkcall (k_ow k) (k_start k) (k_dl k) Waiting (k_t0 k) (k_lockt k) (k_d k) e (k_out k) (k_ret k) (k_rel0 k) (k_w k).
 Definition set_ret (k : call) (t : N) : call :=
-  mkcall (k_ow k) (k_start k) (k_dl k) Returned (k_t0 k) (k_lockt k) (k_d k) (k_e k) (k_out k) t.
+  mkcall (k_ow k) (k_start k) (k_dl k) Returned (k_t0 k) (k_lockt k) (k_d k) (k_e k) (k_out k) t (k_rel0 k) (k_w k).
 
 Definition with_calls (s : state) (cs : list call) : state :=
   mkst (now s) cs (rcvs s) (queueLen s) (invokeNum s) (resp s) (conn_open s) (lock s) (sendq s) (wire s) (sent s) (tr s).
@@ -134,7 +139,7 @@ Definition step (c : cfg) (s : state) (l : label) : option state :=
   match l with
   | Tick => if urgent c s then None
             else Some (mkst (now s + 1) (calls s) (rcvs s) (queueLen s) (invokeNum s) (resp s) (conn_open s) (lock s) (sendq s) (wire s) (sent s) (tr s))
-  | Start d ow => Some (with_calls s (calls s ++ [mkcall ow (now s) (now s + d) Init (now s) (now s) false false None 0]))
+  | Start d ow => Some (with_calls s (calls s ++ [mkcall ow (now s) (now s + d) Init (now s) (now s) false false None 0 0 0]))
   | LPre i =>
       match nth_error (calls s) i with
       | Some k => match k_pc k with
@@ -144,7 +149,7 @@ Definition step (c : cfg) (s : state) (l : label) : option state :=
   | LReg i =>   (* adp.resp.Store(id, readCh) *)
       match nth_error (calls s) i with
       | Some k => match k_pc k with
-                  | Counted => Some (mkst (now s) (upd (calls s) i (set_pc k Reg)) (rcvs s) (queueLen s) (invokeNum s) (i :: resp s) (conn_open s) (lock s) (sendq s) (wire s) (sent s) (tr s))
+                  | Counted => Some (mkst (now s) (upd (calls s) i (set_reg k (rels (tr s)))) (rcvs s) (queueLen s) (invokeNum s) (i :: resp s) (conn_open s) (lock s) (sendq s) (wire s) (sent s) (tr s))
                   | _ => None end
       | None => None end
   | LQueueFull i =>   (* "invoke queue is full": returns before anything is registered *)
@@ -160,27 +165,27 @@ Definition step (c : cfg) (s : state) (l : label) : option state :=
       | Some k, None =>
           match k_pc k with
           | Reg => if conn_open s
-                   then Some (with_calls s (upd (calls s) i (set_lock k Enq (now s) false)))
-                   else Some (mkst (now s) (upd (calls s) i (set_lock k Dialing (now s) true)) (rcvs s) (queueLen s) (invokeNum s) (resp s) (conn_open s) (Some i) (sendq s) (wire s) (sent s) (tr s))
+                   then Some (with_calls s (upd (calls s) i (set_lock k Enq (now s) false (rels (tr s) - k_rel0 k))))
+                   else Some (mkst (now s) (upd (calls s) i (set_lock k Dialing (now s) true (rels (tr s) - k_rel0 k))) (rcvs s) (queueLen s) (invokeNum s) (resp s) (conn_open s) (Some i) (sendq s) (wire s) (sent s) (tr s))
           | _ => None end
       | _, _ => None end
   | LDialOk i =>
       match nth_error (calls s) i with
       | Some k => match k_pc k with
-                  | Dialing => Some (mkst (now s) (upd (calls s) i (set_wait k Enq (now s))) (rcvs s) (queueLen s) (invokeNum s) (resp s) true None (sendq s) (wire s) (sent s) (mktr (now s) (tinv (tr s)) (now s) (conns (tr s) + 1)))
+                  | Dialing => Some (mkst (now s) (upd (calls s) i (set_wait k Enq (now s))) (rcvs s) (queueLen s) (invokeNum s) (resp s) true None (sendq s) (wire s) (sent s) (mktr (now s) (tinv (tr s)) (now s) (conns (tr s) + 1) (rels (tr s) + 1)))
                   | _ => None end
       | None => None end
   | LDialFail i =>
       match nth_error (calls s) i with
       | Some k => match k_pc k with
-                  | Dialing => Some (mkst (now s) (upd (calls s) i (set_out k Error (k_e k))) (rcvs s) (queueLen s) (invokeNum s) (resp s) (conn_open s) None (sendq s) (wire s) (sent s) (tr s))
+                  | Dialing => Some (mkst (now s) (upd (calls s) i (set_out k Error (k_e k))) (rcvs s) (queueLen s) (invokeNum s) (resp s) (conn_open s) None (sendq s) (wire s) (sent s) (mktr (idle_since (tr s)) (tinv (tr s)) (conn_t (tr s)) (conns (tr s)) (rels (tr s) + 1)))
                   | _ => None end
       | None => None end
   | LDialTimeout i =>
       match nth_error (calls s) i with
       | Some k => match k_pc k with
                   | Dialing => if k_t0 k + dialT c <=? now s
-                               then Some (mkst (now s) (upd (calls s) i (set_out k Error (k_e k))) (rcvs s) (queueLen s) (invokeNum s) (resp s) (conn_open s) None (sendq s) (wire s) (sent s) (tr s))
+                               then Some (mkst (now s) (upd (calls s) i (set_out k Error (k_e k))) (rcvs s) (queueLen s) (invokeNum s) (resp s) (conn_open s) None (sendq s) (wire s) (sent s) (mktr (idle_since (tr s)) (tinv (tr s)) (conn_t (tr s)) (conns (tr s)) (rels (tr s) + 1)))
                                else None
                   | _ => None end
       | None => None end
@@ -222,14 +227,14 @@ Definition step (c : cfg) (s : state) (l : label) : option state :=
       match sendq s with
       (* a sender goroutine takes the head of the queue and writes it; the goroutine of a lost connection may still be
          running (the connection flag is not consulted), whether the bytes reach the peer is the peer's business *)
-      | i :: q => Some (mkst (now s) (calls s) (rcvs s) (queueLen s) (invokeNum s) (resp s) (conn_open s) (lock s) q (i :: wire s) (sent s) (mktr (now s) (tinv (tr s) + 1)%Z (conn_t (tr s)) (conns (tr s))))
+      | i :: q => Some (mkst (now s) (calls s) (rcvs s) (queueLen s) (invokeNum s) (resp s) (conn_open s) (lock s) q (i :: wire s) (sent s) (mktr (now s) (tinv (tr s) + 1)%Z (conn_t (tr s)) (conns (tr s)) (rels (tr s))))
       | [] => None end
   | LConnDown =>
       if conn_open s
       then Some (mkst (now s) (calls s) (rcvs s) (queueLen s) (invokeNum s) (resp s) false (lock s) (sendq s) (wire s) (sent s) (tr s))
       else None
   | LPeerPkt id pay =>
-      Some (mkst (now s) (calls s) (rcvs s ++ [mkrcv id pay RNew 0]) (queueLen s) (invokeNum s) (resp s) (conn_open s) (lock s) (sendq s) (wire s) ((id, pay) :: sent s) (mktr (idle_since (tr s)) (tinv (tr s) - 1)%Z (conn_t (tr s)) (conns (tr s))))
+      Some (mkst (now s) (calls s) (rcvs s ++ [mkrcv id pay RNew 0]) (queueLen s) (invokeNum s) (resp s) (conn_open s) (lock s) (sendq s) (wire s) ((id, pay) :: sent s) (mktr (idle_since (tr s)) (tinv (tr s) - 1)%Z (conn_t (tr s)) (conns (tr s)) (rels (tr s))))
   | LLookup r =>
       match nth_error (rcvs s) r with
       | Some x => match r_pc x with
